@@ -200,6 +200,9 @@ func c01Families() []*c01Family {
 	}
 	// F7: IP literals whose texts share tails that are not label / hextet boundaries
 	f7 := []string{"http://[::1]", "http://[fe80::1]", "http://[::21]:9090", "http://[1::1]:*", "http://[fe80::1]:*", "http://1.2.3.4", "http://21.2.3.4", "http://1.2.3.4:*", "http://12.3.4.5", "http://[::1]:9090"}
+	// F8: realistic values (long labels with digits and hyphens, Punycode, unusual schemes, five-digit ports)
+	f8 := []string{"https://api-v2.example.co.uk", "https://*.example.co.uk", "https://xn--bcher-kva.example:49152", "chrome-extension://abcdefghijklmnop", "app+v1.0://host-1.internal:10000",
+		"https://*.host-1.internal:*", "https://example.co.uk:10443", "https://v2.example.co.uk", "https://*.api-v2.example.co.uk:*", "app+v1.0://*.internal"}
 	f3 := []string{
 		"http://1.2.3.4", "http://127.0.0.1", "http://127.0.0.1:8080", "http://127.0.0.1:*",
 		"http://[::1]", "http://[::1]:9090", "http://[::1]:*", "http://[2001:db8::1]",
@@ -220,6 +223,7 @@ func c01Families() []*c01Family {
 		{name: "F3-literals-extremes", patterns: f3},
 		{name: "F5-schemes-over-one-subtree", patterns: f5},
 		{name: "F7-ip-literals-sharing-tails", patterns: f7},
+		{name: "F8-realistic-values", patterns: f8},
 	}
 }
 
